@@ -84,8 +84,19 @@ impl Monitor for Mon {
             if p.devaddr != addr {
                 return Some(Violation::new("C06.mic-counter-mismatch", "devaddr", format!("uplink address {:08x} is not the session's {:08x}", p.devaddr, addr)));
             }
-            // payload must decrypt under the same N to what the application passed
+            // payload must decrypt under the same N to what the application passed (port 0: to whole MAC commands
+            // of the uplink direction - the device's own answers - under the network session key)
             if let Some(port) = p.fport {
+                if port == 0 && !p.frm_cipher.is_empty() {
+                    if let Some(Err(e)) = super::c08::uplink_cmds(&tx.bytes, &(nwk, app, addr), Some(n)) {
+                        return Some(Violation::new(
+                            "C06.payload-counter-mismatch",
+                            "port0",
+                            format!("the port-0 FRMPayload of the uplink with counter {n} does not decrypt (under that counter) to a sequence of MAC commands: {e}"),
+                        ));
+                    }
+                    stats.bump("probe.port0-payload-checked");
+                }
                 if port != 0 {
                     let keys = rc::SessionKeys { nwk, app, devaddr: addr };
                     let plain = rc::decrypt_frm(&p, &keys, n);
@@ -365,6 +376,20 @@ impl C06 {
                         t.rx1.push(ja_valid(&mut r));
                     }
                     ops.push(Op::Join(t));
+                }
+                2 => {
+                    // a downlink that queues MAC answers, then a MAC-only uplink: the answers travel in the port-0
+                    // FRMPayload, encrypted under the network session key with the full uplink counter
+                    let mut t = Txn::default();
+                    let mut d = DataSpec::plain(1);
+                    d.fopts = vec![MacSpec::DevStatus, MacSpec::RxTimingSetup { del: r.below(16) as u8 }];
+                    if r.chance(1, 2) {
+                        t.rx1.push(FrameSpec::Data(d));
+                    } else {
+                        t.rx2.push(FrameSpec::Data(d));
+                    }
+                    ops.push(Op::Send { port: 3, len: 1, confirmed: false, txn: t });
+                    ops.push(Op::Send { port: 0, len: 0, confirmed: r.chance(1, 4), txn: gen_txn(&mut r, fe, fault_pct / 2) });
                 }
                 _ => {
                     let txn = gen_txn(&mut r, fe, fault_pct);
